@@ -104,7 +104,11 @@ def run_check(prop, tier, seed):
     dropped = []
     covers = []
     failures = []
-    for c in m.CONTRACTS:
+    contracts = list(m.CONTRACTS)
+    if hasattr(m, 'dynamic_contracts'):
+        # contracts instantiated per definition found in the current tree (e.g. every override of a method)
+        contracts += list(m.dynamic_contracts(REPO))
+    for c in contracts:
         if c.tier == 'thorough-only' and tier != 'thorough':
             continue
         try:
